@@ -3,7 +3,9 @@
 # capacity of the source), run module RunC16Pool.
 CFG = {
         "jobs": lambda tier: [
-            J("prod", "c16", needs_repo_bins=["mlar"]),
+            # c16 also runs the cases `c16b-*` (work package fixcli): hand-written layer-less archives (re-used file ids) and the
+            # states of the -o argument; model = CliExtractOut.cmd_extract_*_o on the archive BYTES (RunC16Bytes.c16b_run)
+            J("prod", "c16", needs_repo_bins=["mlar"], imports="Base Stream Inst Run RunC17 RunC16Bytes"),
             J("prod", "c16-symlink", needs_repo_bins=["mlar"]),
             # "extracted beneath it with exactly their content", whole-archive form, members whose
             # runs are separated by more than the writer pool's 1000 other members (shared with C12)
@@ -12,7 +14,7 @@ CFG = {
             # every handle is evicted between two blocks of its member; model = Pool.extract_linear_pool at POOL_CAP = 1000
             J("prod", "c16-pool", needs_repo_bins=["mlar"], imports="Base Stream Inst Run RunC16Pool", shard=1),
         ],
-        "run_modules": ["RunC16Pool"],
+        "run_modules": ["RunC16Pool", "RunC16Bytes"],
         "rule": "c16: member-name sets from the path grammar: EVERY name of depth <= 2 (quick) / <= 3 (thorough) over 11 component kinds "
                 "('.', '..', normal, empty, unicode, 255 and 256 bytes, '...', absolute markers) x leading/trailing separator, "
                 "each together with a benign member, plus random sets of 1-4 names of depth <= 4; forms cycle over {linear, glob '*', one listed "
@@ -24,7 +26,11 @@ CFG = {
                 "c16-pool: 5 / 1001 / 1100 (thorough: also 999, 1000, 1037, three rounds) tiny members written in 2-3 interleaved rounds with a "
                 "rotation per round, every 13th member without any byte (created by the pre-pass only), zero-length appends; whole-archive "
                 "extraction by the real binary, every file under the output directory (path, content) and the exit status compared with the "
-                "model run THROUGH the pool at capacity 1000",
+                "model run THROUGH the pool at capacity 1000; c16b (in job c16, work package fixcli): six layer-less archives whose blocks and "
+                "footer are written by hand — FileStart(0,b) FileStart(0,../x) FileContent(0,DATA) (a re-used id re-bound by a refused name), "
+                "both names accepted, the refused name first, an id re-used after its EndOfFile, two interleaved ids, a plain control — in the "
+                "three forms, and for the first and the control every state of the -o argument (missing, directory, regular file, symbolic link "
+                "to a directory, dangling link, below a missing parent): whole sandbox snapshot and exit status = the model reading the same bytes",
         "exhaustive": {"quick": True, "thorough": True},
         "explanation": "theorems: on ANY model file system (directories, files, symbolic links with relative/absolute targets anywhere) both "
                        "extraction forms leave every regular file outside the output directory untouched and create none there, every touched "
